@@ -182,7 +182,7 @@ func init() {
 
 var dates = []string{"2023:06:15 12:34:56", "1970:01:01 00:00:00", "9999:12:31 23:59:59", "2024:02:29 23:59:59"}
 var strMenu = func(def string) []Val {
-	return []Val{S(def), S("x"), S("ab"), S("abc"), S("abcd"), S(seqStr(19)), S(seqStr(20)), S(seqStr(21)), S(seqStr(255)), S(seqStr(1023))}
+	return []Val{S(def), S("x"), S("ab"), S("abc"), S("abcd"), S(seqStr(19)), S(seqStr(20)), S(seqStr(21)), S(seqStr(255)), S(seqStr(1023)), S(seqStr(4095))}
 }
 var offMenu = []Val{S("+02:00"), S("-09:30"), S("+00:00"), S("+14:00"), S("-14:00"), S("+05:45")}
 var subsecMenu = []Val{S("123"), S("5"), S("12"), S("1234"), S("12345"), S("123456"), S("00"), S("999"), S("050")}
@@ -275,7 +275,7 @@ func ChooseRecord(x Chooser, full bool) *Rec {
 }
 
 // NShapes is the number of shape transformations ChooseShape knows.
-const NShapes = 12
+const NShapes = 15
 
 // ChooseShape re-encodes one field of the record in another legal or
 // near-legal shape (one more value, another integer type, no NUL terminator,
@@ -379,6 +379,12 @@ func ChooseShape(x Chooser, rec *Rec) string {
 			v.Ints = []uint32{v.Ints[0], v.Ints[0] ^ 1}
 		} else if len(v.Rats) == 1 {
 			v.Rats = [][2]uint32{v.Rats[0], {v.Rats[0][0] + 1, v.Rats[0][1] + 1}}
+		}
+	case 12, 13, 14: // text at and beyond the size of the value reader's window (4096 bytes with the NUL)
+		if v.Type == TASCII {
+			v.Str = seqStr([]int{4095, 4096, 5000}[k-12])
+			e.V = v
+			return fmt.Sprintf("%s as a string of %d characters", e.Name, len(v.Str))
 		}
 	}
 	e.V = v
